@@ -51,23 +51,24 @@ type GenPkg struct {
 
 // Run is one harness entry point.
 type Run struct {
-	Name       string              `json:"name"`
-	Pkg        string              `json:"pkg"` // import path
-	Files      []string            `json:"files"`
-	Entry      string              `json:"entry"`
-	Quick      map[string]int64    `json:"quick"`
-	Thorough   map[string]int64    `json:"thorough"`
-	Covers     []string            `json:"covers"`
-	Bounds     string              `json:"bounds"`
-	MaxPaths   int                 `json:"maxpaths"`
-	TimeoutS   map[string]int      `json:"timeout_s"`
-	Tiers      []string            `json:"tiers"` // restrict to these tiers (default both)
-	NoNative   bool                `json:"no_native"`
-	Programs   int                 `json:"programs"`
-	StepBudget int64               `json:"step_budget"`
-	Stubs      map[string]string   `json:"stubs"`
-	Schedule   bool                `json:"schedule"`
-	Extra      map[string][]string `json:"extra"` // other packages that receive harness files: import path -> files
+	Name              string              `json:"name"`
+	Pkg               string              `json:"pkg"` // import path
+	Files             []string            `json:"files"`
+	Entry             string              `json:"entry"`
+	Quick             map[string]int64    `json:"quick"`
+	Thorough          map[string]int64    `json:"thorough"`
+	Covers            []string            `json:"covers"`
+	Bounds            string              `json:"bounds"`
+	MaxPaths          int                 `json:"maxpaths"`
+	TimeoutS          map[string]int      `json:"timeout_s"`
+	Tiers             []string            `json:"tiers"` // restrict to these tiers (default both)
+	NoNative          bool                `json:"no_native"`
+	Programs          int                 `json:"programs"`
+	StepBudget        int64               `json:"step_budget"`
+	BudgetIsViolation bool                `json:"step_budget_is_violation"`
+	Stubs             map[string]string   `json:"stubs"`
+	Schedule          bool                `json:"schedule"`
+	Extra             map[string][]string `json:"extra"` // other packages that receive harness files: import path -> files
 }
 
 // KnownFile is /verif/known-findings.json.
@@ -279,7 +280,7 @@ func main() {
 		cfg := &sym.Config{
 			Prog: prog, Pkg: pkg, Entry: run.Entry, Workers: *workers, MaxPaths: run.MaxPaths,
 			Deadline: time.Now().Add(time.Duration(timeout) * time.Second), Params: pc, KnownListed: listed,
-			SampleCases: 24, Trace: *trace, StepBudget: run.StepBudget,
+			SampleCases: 24, Trace: *trace, StepBudget: run.StepBudget, BudgetIsViolation: run.BudgetIsViolation,
 			InitAllow: func(p string) bool {
 				if v, ok := pureStd[p]; ok {
 					return v
